@@ -49,6 +49,14 @@ theorem C23_bad_size_line_is_error (s line r : Bytes) (hl : readLine s = .ok (li
     obtain ⟨h1, h2, h3, _⟩ := (parseHex_exact line n).mp hp
     exact absurd ⟨h1, h2, h3⟩ hbad
 
+/-- **completeness** (no chunk extensions): every stream the STRICT RFC decoder accepts and whose chunk-size
+    lines are `1*HEXDIG CRLF` (no chunk-ext; such lines have at most 18 bytes, far below the 4096-byte line
+    limit) is accepted by the reader with the same body and the same unread rest.  With `C23_sound` this makes the
+    reader exact on that language. -/
+theorem C23_accepts_strict (s b r r' : Bytes) (h : rfcDechunk false s = .ok b r)
+    (hne : noExtChunks (s.length + 1) s = some r') : decode s = ⟨b, .eof, r⟩ :=
+  complete_aux _ s b r h _ r' hne _ (by omega)
+
 /-- the result does not depend on the fuel used by the executable definition -/
 theorem C23_fuel_irrelevant (s : Bytes) (f : Nat) (h : s.length < f) : decodeAux f s = decode s :=
   decodeAux_fuel f s _ h (by omega)
@@ -77,5 +85,11 @@ example : rfcDechunk false [53, 32, 10, 104, 101, 108, 108, 111, 13, 10, 48, 10]
 example : (decode [53, 13, 10, 104, 101]).err = .ueof := by decide
 -- a size line that is not hex (hypothesis of C23_bad_size_line_is_error is satisfiable)
 example : readLine [53, 59, 97, 13, 10] = .ok ([53, 59, 97], []) := by rfl
+
+-- hypotheses of C23_accepts_strict are satisfiable ("5\r\nhello\r\n0\r\n\r\n"); a chunk extension is outside
+example : noExtChunks 16 [53, 13, 10, 104, 101, 108, 108, 111, 13, 10, 48, 13, 10, 13, 10] = some [13, 10] := by decide
+example : rfcDechunk false [53, 13, 10, 104, 101, 108, 108, 111, 13, 10, 48, 13, 10, 13, 10] =
+    .ok [104, 101, 108, 108, 111] [13, 10] := by decide
+example : noExtChunks 8 [53, 59, 97, 13, 10] = none := by decide
 
 end BfeVerif.C23
